@@ -228,8 +228,16 @@ def b_group_clones(data, v):
     return None
 
 
+def report_directory(r):
+    if r["outdir"] and not r["reports"]:
+        return "outdir"
+    if r["reports"] and not r["outdir"]:
+        return ""
+    return None
+
+
 def report_format(r):
-    exts = sorted({n.rsplit(".", 1)[-1] for n in r["reports"]})
+    exts = sorted({n.rsplit(".", 1)[-1] for n in r["reports"] + r["outdir"]})
     return exts[0] if len(exts) == 1 else None
 
 
@@ -250,8 +258,15 @@ KEYS = [
     Key("output", "sort_by", E, "complexity", PNE, "complexity", path("complexity", "Config", "sort_by"), ["name", "risk", "bogus"],
         rng=(1, 3), domain=["name", "complexity", "risk"], behave=b_cx_sorted),
     # no format flag at all: analyze's own default is HTML; the file's [output] format should replace it
-    Key("output", "format", E, "html", PNE, "complexity", report_format, ["json", "yaml", "bogus"], rng=(1, 5),
-        domain=["text", "json", "yaml", "csv", "html"], plumbing=("NotCopied", "html"), argv=["--select", "complexity"], on_result=True),
+    Key("output", "format", E, "html", PNE, "complexity", report_format, ["json", "yaml", "csv", "html", "bogus"], rng=(1, 5),
+        domain=["text", "json", "yaml", "csv", "html"], plumbing=("NotCopied", "html"), argv=["--select", "complexity,deadcode"], on_result=True),
+    # where the report goes
+    Key("output", "directory", E, "", PNE, "complexity", report_directory, ["outdir"], domain=["outdir"], argv=["--json", "--select", "complexity"],
+        on_result=True),
+    # the risk thresholds (their values in force are the business of the option matrix): what the validation refuses
+    # (`low_threshold < 1` is tested on a copy that only takes values > 0, config.go:299: 0 and negative values are never refused)
+    Key("complexity", "low_threshold", I, 9, PP, "complexity", path("complexity", "Config", "low_threshold"), [0, 19, 25], rng=(-BIG, 18)),
+    Key("complexity", "medium_threshold", I, 19, PP, "complexity", path("complexity", "Config", "medium_threshold"), [5, 9], rng=(10, BIG)),
     # ---- [dead_code] -----------------------------------------------------------------------------------------------
     Key("dead_code", "min_severity", E, "warning", PNE, "deadcode", None, ["bogus"], rng=(1, 3), domain=SEVS),
     # the file-side counterpart of --skip-deadcode / --select
@@ -287,10 +302,11 @@ KEYS = [
     Key("clones", "skip_docstrings", B, True, PP, "clones", path("clone", "request", "skip_docstrings"), [True, False],
         plumbing=("NotCopied", False)),
     Key("clones", "enable_dfa", B, True, PP, "clones", path("clone", "request", "enable_dfa"), [False]),
-    Key("clones", "type1_threshold", F_, 0.85, PPOS, "clones", path("clone", "request", "type1_threshold"), [0.95, 0.7], rng=(0.7501, 1.0)),
-    Key("clones", "type2_threshold", F_, 0.75, PPOS, "clones", path("clone", "request", "type2_threshold"), [0.8], rng=(0.7001, 0.8499)),
+    Key("clones", "type1_threshold", F_, 0.85, PPOS, "clones", path("clone", "request", "type1_threshold"), [0.95, 0.7, 1.5], rng=(0.7501, 1.0)),
+    Key("clones", "type2_threshold", F_, 0.75, PPOS, "clones", path("clone", "request", "type2_threshold"), [0.8, 0.7], rng=(0.7001, 0.8499)),
     Key("clones", "type3_threshold", F_, 0.70, PPOS, "clones", path("clone", "request", "type3_threshold"), [0.72], rng=(0.6501, 0.7499)),
     Key("clones", "type4_threshold", F_, 0.65, PPOS, "clones", path("clone", "request", "type4_threshold"), [0.6, 0.9], rng=(0.0, 0.6999)),
+    Key("clones", "similarity_threshold", F_, 0.65, PPOS, "clones", None, [1.5], rng=(0.0, 1.0)),
     Key("clones", "min_similarity", F_, 0.0, PNN, "clones", path("clone", "request", "min_similarity"), [0.8, 1.5], rng=(0.0, 1.0), behave=b_min_sim),
     Key("clones", "max_similarity", F_, 1.0, PPOS, "clones", path("clone", "request", "max_similarity"), [0.8, 1.5], rng=(0.0, 1.0), behave=b_max_sim),
     Key("clones", "enabled_clone_types", L, ["type1", "type2", "type4"], PNE, "clones", clone_types_echo,
@@ -311,7 +327,7 @@ KEYS = [
         family="clones.request_wins"),
     Key("clones", "show_content", B, False, PP, "clones", path("clone", "request", "show_content"), [True], plumbing=("RequestWins", False),
         family="clones.request_wins"),
-    Key("clones", "sort_by", E, "similarity", PNE, "clones", path("clone", "request", "sort_by"), ["size", "bogus"], rng=(1, 4),
+    Key("clones", "sort_by", E, "similarity", PNE, "clones", path("clone", "request", "sort_by"), ["size", "location", "type", "bogus"], rng=(1, 4),
         domain=["similarity", "size", "location", "type"], plumbing=("RequestWins", "similarity"), empty_is_default=True,
         family="clones.request_wins"),
     Key("clones", "group_clones", B, True, PP, "clones", path("clone", "request", "group_clones"), [False], plumbing=("RequestWins", True),
@@ -398,8 +414,15 @@ def run_key_case(args):
     data = c17.read_report(d)
     rep = os.path.join(d, ".pyscn", "reports")
     reports = sorted(os.listdir(rep)) if os.path.isdir(rep) else []
+    od = os.path.join(d, "outdir")
+    outdir = sorted(os.listdir(od)) if os.path.isdir(od) else []
+    if data is None and outdir and outdir[-1].endswith(".json"):
+        try:
+            data = json.load(open(os.path.join(od, outdir[-1])))
+        except Exception:
+            data = None
     shutil.rmtree(d, ignore_errors=True)
-    return dict(rc=rc, data=data, reports=reports, stderr=err[-500:], argv=["analyze", "--no-open"] + argv + ["."])
+    return dict(rc=rc, data=data, reports=reports, outdir=outdir, stderr=err[-500:], argv=["analyze", "--no-open"] + argv + ["."])
 
 
 BAD_CONFIGS = [("syntax", "[complexity\nmax_complexity = 30\n"), ("type", "[complexity]\nmax_complexity = \"thirty\"\n"),
@@ -412,7 +435,7 @@ def run_bad_config(args):
     d = os.path.join(root, "badcfg%02d" % idx, "proj")
     shutil.rmtree(os.path.dirname(d), ignore_errors=True)
     write_files(c17, d, ["cxmod.py"])
-    argv = ["--select", "complexity"]
+    argv = ["--select", "complexity" if cmd == "analyze" else "complexity,deadcode,clones"]
     if how == "explicit":
         cp = os.path.join(os.path.dirname(d), "my.toml")
         argv += ["--config", cp]
@@ -535,7 +558,7 @@ class KeySweep:
     def observed(k, r):
         """the outcome as a Coq term, or None when it cannot be read."""
         if k.on_result:
-            if r["rc"] != 0 and not r["reports"]:
+            if r["rc"] != 0 and not r["reports"] and not r["outdir"]:
                 return "Rejected"
             e = k.echo(r)
             return None if e is None else "(InForce %s)" % cZ(k.enc(e))
